@@ -26,6 +26,8 @@ def run(ctx):
     ctx.distinct = ac.distinct(progs)
     ac.mc_corpus(ctx, progs if th else progs[::4], pieces=12)
     ac.judge(ctx, progs, "c06")
+    ac.judge(ctx, progs[-3000:], "c06chk", profile="checked")     # also on the build with integer-overflow checks
+    ctx.extra["builds"] = ["release", "checked (overflow checks + debug assertions) for a sample"]
     return vlib.finish(ctx, rule="term trees: every operator/enum variant at the root, every constructor in every child position of "
                        "every other constructor (depth 2 complete), seeded random trees to depth 6, bodies on both sides of the "
                        "63/64 and 4095/4096 (thorough: 2^20) PkgLength boundaries incl. nested; predicate: the independent parser "
